@@ -250,6 +250,35 @@ theorem parse_length (n : Name) (a : IP) (h : parseIP6ArpaName n = some a) : a.l
         simp only [List.length_reverse, this]
         simpa using h32
 
+theorem mapM_labelNibble_singletons : ∀ (parts : List Name) (nibs : List Nat), parts.mapM labelNibble = some nibs →
+    ∃ cs : List Char, parts = cs.map (fun c => [c]) ∧ cs.mapM hexNibble = some nibs := by
+  intro parts
+  induction parts with
+  | nil => intro nibs h; simp at h; subst h; exact ⟨[], rfl, rfl⟩
+  | cons p t ih =>
+    intro nibs h
+    rw [List.mapM_cons] at h
+    cases hp : labelNibble p with
+    | none => simp [hp] at h
+    | some n =>
+      cases ht : t.mapM labelNibble with
+      | none => simp [hp, ht] at h
+      | some r =>
+        simp [hp, ht] at h
+        subst h
+        obtain ⟨cs, hcs, hm⟩ := ih r ht
+        match p, hp with
+        | [c], hp =>
+          refine ⟨c :: cs, by simp [hcs], ?_⟩
+          simp only [labelNibble] at hp
+          simp [List.mapM_cons, hp, hm]
+
+theorem take_of_hasSuffix (s t : Name) (h : hasSuffix s t = true) : s.take (s.length - t.length) ++ t = s := by
+  unfold hasSuffix at h
+  rw [List.isSuffixOf_iff_suffix] at h
+  obtain ⟨pre, rfl⟩ := h
+  simp
+
 /-! ### TTL choice -/
 
 theorem foldl_min_le_init (l : List Nat) (t : Nat) :
